@@ -1378,13 +1378,9 @@ def C16(ctx):
         if ctx.thorough:
             W = 14400
             number_case(2 ** W - 1 - rng.randrange(2 ** 40), W, 2)
-    for fn, arg in ((OP.number_to_bit, 2.5), (OP.number_to_dna, 2.5)):
-        st, r = proto.guarded(lambda: fn(arg, 3))
-        if not (st == "err" and r == "ValueError"):
-            ctx.fail("a number that is neither str nor int is not rejected with ValueError", function=fn.__name__, observed=str(r)[:80])
-    o = ctx.corr("d2n ACGN")
-    if o != "err ValueError | err ValueError":
-        ctx.fail("foreign nucleotide not reported as ValueError", observed=o)
+    # (numbers of another type and foreign nucleotides are outside C16's statement: what the code does with them is
+    # neither demanded nor compared here - a harmless rewrite that raised TypeError instead was reported at first,
+    # DESIGN.md §10.6; decode's ValueError on foreign characters is C06's business)
 
 
 # =============================================================================== C17
